@@ -86,12 +86,26 @@ func hasKindConflict(a, b any) bool {
 }
 
 func c04Merge(r *rand.Rand, a, b map[string]any, app bool) Case {
+	if !app {
+		mergeElsewhereWithOptions()
+	}
 	// build along different routes (decoder uses the shared nilLeaf, builder fresh leaves)
 	var A, B dom.ContainerBuilder
 	if r == nil || r.Intn(2) == 0 {
 		A, B = anyToContainer(a), dom.Builder().FromMap(deepCopy(b).(map[string]any))
 	} else {
 		A, B = dom.Builder().FromMap(deepCopy(a).(map[string]any)), anyToContainer(b)
+	}
+	// ... or composed of finished parts: every nested mapping and list a Seal()ed read-only view
+	if r != nil {
+		switch r.Intn(6) {
+		case 0:
+			A = anyToContainerSealedKids(a)
+		case 1:
+			B = anyToContainerSealedKids(b)
+		case 2:
+			A, B = anyToContainerSealedKids(a), anyToContainerSealedKids(b)
+		}
 	}
 	var opts []dom.MergeOption
 	if app {
@@ -192,6 +206,9 @@ func replaceScalars(v any, with any) any {
 	}
 }
 
+// a configuration object that is a mapping without being a map[string]interface{}
+type c04Typed map[string]any
+
 // fluent.ConfigHelper: defaults, then overrides, then a file
 func c04Fluent(r *rand.Rand, idx int, docs []map[string]any) Case {
 	var fail []string
@@ -209,13 +226,16 @@ func c04Fluent(r *rand.Rand, idx int, docs []map[string]any) Case {
 		h := fluent.NewConfigHelper[map[string]any]()
 		for i, d := range docs[:len(docs)-1] {
 			// a source is a plain map, a document under construction, or its read-only view
-			switch (idx + i) % 3 {
+			// ... or any other value that spells a mapping (a typed map, a struct): those travel through YAML
+			switch []int{0, 1, 2, 3, 0, 3, 1, 3, 2, 3}[(idx+3*i)%10] {
 			case 0:
 				h.Add(deepCopy(d))
 			case 1:
 				h.Add(dom.Builder().FromMap(deepCopy(d).(map[string]any)))
-			default:
+			case 2:
 				h.Add(dom.Builder().FromMap(deepCopy(d).(map[string]any)).Seal())
+			default:
+				h.Add(c04Typed(deepCopy(d).(map[string]any)))
 			}
 			if i == 0 && (idx/8)%3 == 0 { // the accumulated result looked at after the first source, two more follow in a row
 				_ = h.Result()
@@ -293,7 +313,7 @@ func mutateDeep(r *rand.Rand, v any, o genOpts, depth int) any {
 func init() {
 	register(&Prop{
 		ID:   "C04",
-		Rule: "kinds: merge (pairs (A,B): B derived from A by 1-4 mutations at any depth — kind flips, nulls, list truncation/extension, lists of containers/lists — or independent; both list strategies; inputs snapshotted before/after, identities and idempotence as Go-side oracles), overlay-merged (2-3 layers through OverlayDocument.Merged), fluent (ConfigHelper Add..Load(file).Result()). Non-trivial: pair has a kind conflict or unequal-length lists. Distinct by Gallina term. ConfigHelper sources are plain maps, builders and sealed views in turn. The same A is merged a second time with another B and the first result re-read; Result() is looked at in the middle of every second ConfigHelper chain. A ConfigHelper that was only Mutate()d is created (and dropped) before the one under test. Corpus: 150 mappings side by side (in a mapping and in a list); a ConfigHelper whose Result() is read after the first source while a key goes section -> scalar -> section.",
+		Rule: "kinds: merge (pairs (A,B): B derived from A by 1-4 mutations at any depth — kind flips, nulls, list truncation/extension, lists of containers/lists — or independent; both list strategies; operands built by the builder, by the decoder, or composed of sealed parts (every nested mapping/list a read-only view); inputs snapshotted before/after, identities and idempotence as Go-side oracles), overlay-merged (2-3 layers through OverlayDocument.Merged), fluent (ConfigHelper Add..Load(file).Result()). Non-trivial: pair has a kind conflict or unequal-length lists. Distinct by Gallina term. ConfigHelper sources are plain maps, builders, sealed views and typed maps (which travel through YAML) in turn, sometimes four of them, the third lacking keys of the first. The same A is merged a second time with another B and the first result re-read; Result() is looked at in the middle of every second ConfigHelper chain. A ConfigHelper that was only Mutate()d is created (and dropped) before the one under test. Corpus: 150 mappings side by side (in a mapping and in a list); a ConfigHelper whose Result() is read after the first source while a key goes section -> scalar -> section.",
 		Corpus: func() []Case {
 			return []Case{
 				c04Merge(nil, map[string]any{"a": 1}, map[string]any{"a": nil, "b": nil}, false),
@@ -326,7 +346,17 @@ func init() {
 			case 7:
 				o.floats = false
 				a = genDoc(r, o)
-				return c04Fluent(r, idx, []map[string]any{a, deriveDoc(r, a, o), deriveDoc(r, a, o)})
+				docs := []map[string]any{a, deriveDoc(r, a, o), deriveDoc(r, a, o)}
+				if r.Intn(2) == 0 { // a later source that lacks keys an earlier one had: what was set stays set
+					less := deepCopy(a).(map[string]any)
+					for _, k := range sortedKeys(less) {
+						if r.Intn(2) == 0 {
+							delete(less, k)
+						}
+					}
+					docs = []map[string]any{a, deriveDoc(r, a, o), less, deriveDoc(r, a, o)}
+				}
+				return c04Fluent(r, idx, docs)
 			default:
 				b := deriveDoc(r, a, o)
 				if r.Intn(4) == 0 {
